@@ -39,6 +39,8 @@ m = {
         'add_only': True,
     },
     'engines': [
+        {'name': 'distdiff', 'path': 'checks/c09.py, c10.py, c45.py + harness/qe-driver/src/dist.rs', 'serves_properties': ['C09', 'C10', 'C45'],
+         'kind_free_text': 'real coordinator driven through an in-process (optionally fault-injecting) FragmentTransport'},
         {'name': 'loom', 'path': 'harness-loom', 'serves_properties': ['C33'], 'kind_free_text': 'loom model of the real memory pool source file'},
         {'name': 'native', 'path': 'harness/qe-native + vlib/native.py', 'serves_properties': sorted(k for k, v in registry.CHECKS.items() if v['engine'] == registry.E2),
          'kind_free_text': 'rust-native exhaustive enumerators calling the real functions/objects, one subcommand per property'},
